@@ -108,26 +108,27 @@ type fnDef struct {
 }
 
 type gen struct {
-	t         *rapid.T
-	out       strings.Builder
-	structs   []*structDef
-	globals   []*binding
-	helpers   []*fnDef
-	scopes    [][]*binding
-	nameN     int
-	pool      []*ty // types that circulate
-	loop      int   // nesting of loops (break/continue allowed)
-	inCont    bool  // inside a continuing block
-	inSwitch  int
-	fn        *fnDef
-	stage     string
-	ind       int
-	budget    int
-	maxDepth  int
-	features  map[string]bool
-	constDecl map[string]bool // names declared by `const` (module or local scope)
-	bufVar    *binding        // the opaque storage buffer, if any
-	wgVars    []*binding
+	t              *rapid.T
+	out            strings.Builder
+	needDualSource bool // the module needs `enable dual_source_blending;`
+	structs        []*structDef
+	globals        []*binding
+	helpers        []*fnDef
+	scopes         [][]*binding
+	nameN          int
+	pool           []*ty // types that circulate
+	loop           int   // nesting of loops (break/continue allowed)
+	inCont         bool  // inside a continuing block
+	inSwitch       int
+	fn             *fnDef
+	stage          string
+	ind            int
+	budget         int
+	maxDepth       int
+	features       map[string]bool
+	constDecl      map[string]bool // names declared by `const` (module or local scope)
+	bufVar         *binding        // the opaque storage buffer, if any
+	wgVars         []*binding
 }
 
 func (g *gen) feat(s string) { g.features[s] = true }
